@@ -36,6 +36,21 @@ pub struct Case {
 
 pub struct C16;
 
+/// After end of stream further reads must keep reporting end of stream (and, checked by the
+/// caller through the source position, must not touch the bytes that follow).
+fn poll_after_eos<R: std::io::Read>(r: &mut R, res: std::io::Result<Vec<u8>>) -> std::io::Result<Vec<u8>> {
+    let out = res?;
+    let mut b = [0u8; 32];
+    for _ in 0..2 {
+        match r.read(&mut b) {
+            Ok(0) => {}
+            Ok(n) => return Err(std::io::Error::other(format!("VERIF: read after end of stream returned {n} bytes"))),
+            Err(e) => return Err(std::io::Error::other(format!("VERIF: read after end of stream failed: {e}"))),
+        }
+    }
+    Ok(out)
+}
+
 fn trailing_strategy() -> BoxedStrategy<Trailing> {
     prop_oneof![
         1 => Just(Trailing::None),
@@ -149,6 +164,7 @@ impl Property for C16 {
                         no_panic("lzma2-decode", move || {
                             let mut r = LZMA2Reader::new(Cursor::new(f), opts.dict_size, None);
                             let res = read_all(&mut r, &sizes, cap);
+                            let res = poll_after_eos(&mut r, res);
                             (res, r.into_inner().position() as usize)
                         })?
                     }
@@ -164,6 +180,7 @@ impl Property for C16 {
                             match r {
                                 Ok(mut r) => {
                                     let res = read_all(&mut r, &sizes, cap);
+                                    let res = poll_after_eos(&mut r, res);
                                     (res, r.into_inner().position() as usize)
                                 }
                                 Err(e) => (Err(e), 0),
@@ -174,7 +191,13 @@ impl Property for C16 {
             }
             Kind::Xz(_) => {
                 obs.class("xz");
-                decode_xz_consumed(&file, false, &sizes, cap)?
+                let f = file.clone();
+                no_panic("xz-decode", move || {
+                    let mut r = lzma_rust2::XZReader::new(Cursor::new(f), false);
+                    let res = read_all(&mut r, &sizes, cap);
+                    let res = poll_after_eos(&mut r, res);
+                    (res, r.into_inner().position() as usize)
+                })?
             }
         };
         match res {
